@@ -97,6 +97,8 @@ struct Explicit {
     bnd: Vec<bool>,
     props: Vec<(Expectation, &'static str, Vec<bool>)>,
     by_fp: HashMap<u64, usize>,
+    /// the model overrides format_action / format_step (GraphModel::fmt)
+    fmt: bool,
 }
 
 fn explicit<M>(m: &M, cap: usize) -> Option<Explicit>
@@ -115,6 +117,7 @@ where
         bnd: vec![],
         props: vec![],
         by_fp: HashMap::new(),
+        fmt: false,
     };
     fn intern<S: Hash + Debug + Clone + PartialEq>(e: &mut Explicit, states: &mut Vec<S>, s: S) -> Option<usize> {
         let fp = stateright::verif::fingerprint(&s);
@@ -184,11 +187,12 @@ fn explicit_graph(g: &GraphModel) -> Option<Explicit> {
         texts: (0..g.n).map(|s| format!("{:#?}", s as u16)).collect(),
         init: g.init.iter().map(|s| *s as usize).collect(),
         edges: g.edges.iter().map(|es| es.iter().map(|(l, t)| (*l as usize, t.map(|t| t as usize))).collect()).collect(),
-        labels: (0..16).map(|l| format!("{:?}", srh::graph_small::Act(l))).collect(),
+        labels: (0..16).map(|l| g.format_action(&srh::graph_small::Act(l))).collect(),
         bnd: (0..g.n).map(|s| g.within_boundary(&(s as u16))).collect(),
         props: g.properties().iter().map(|p| (p.expectation.clone(), p.name, (0..g.n).map(|s| (p.condition)(g, &(s as u16))).collect())).collect(),
         fps,
         by_fp,
+        fmt: g.fmt,
     })
 }
 
@@ -393,9 +397,10 @@ fn child_serve(args: &[String]) -> ! {
         std::process::exit(3);
     });
     match args[1].as_str() {
-        "g" => {
+        "g" | "gf" => {
             let mut g = GraphModel::parse(&args[2]).expect("graph");
             g.svg = true;
+            g.fmt = args[1] == "gf";
             let _ = g.checker().serve(("127.0.0.1", port));
         }
         _ => {
@@ -429,7 +434,8 @@ fn svg_to_path(e: &Explicit, svg: &str) -> String {
         .split(',')
         .map(|x| {
             if x.starts_with('A') {
-                e.labels.iter().position(|l| l == x).map(|l| l.to_string()).unwrap_or(format!("?{}", x))
+                // `as_svg` of the GraphModel prints the Debug form of an action (`A<label>`) whatever format_action says
+                x[1..].parse::<usize>().ok().filter(|l| *l < e.labels.len()).map(|l| l.to_string()).unwrap_or(format!("?{}", x))
             } else {
                 // states of a GraphModel are numbers; their id in the unfolding goes through the text
                 e.texts.iter().position(|t| t == x).map(|i| i.to_string()).unwrap_or(format!("?{}", x))
@@ -493,7 +499,13 @@ fn canon_states_answer(e: &Explicit, status: u16, body: &[u8], with_path: bool, 
                             em.stat("explorer-state-text-differs-in-hash-order", 1);
                         }
                     }
-                    if strict_text {
+                    if strict_text && e.fmt {
+                        // overridden format_step (presentation only): `o<label>` for odd labels, nothing otherwise
+                        let want = l.as_ref().and_then(|l| l.parse::<usize>().ok()).filter(|l| l % 2 == 1).map(|l| format!("o{}", l));
+                        if row.get("outcome").and_then(|x| x.as_str()).map(|x| x.to_string()) != want {
+                            em.v.push(("outcome".into(), format!("outcome {:?}, the model's format_step says {:?}", row.get("outcome"), want)));
+                        }
+                    } else if strict_text {
                         // default format_step: the outcome is the pretty-printed next state
                         if l.is_some() && row.get("outcome").and_then(|x| x.as_str()) != Some(st) {
                             em.v.push(("outcome".into(), format!("outcome {:?} for next state {:?}", row.get("outcome"), st)));
@@ -573,7 +585,7 @@ fn explorer_session(kind: &str, spec: &str, e: &Explicit, bfs: &BfsRef, r: &mut 
     let mut em = Emit::default();
     let gsx = e.sx();
     let fsx = e.fps_sx();
-    let is_graph = kind == "g";
+    let is_graph = kind == "g" || kind == "gf";
     let mode = if is_graph { "p" } else { "s" };
     let (child, port) = match start_server(kind, spec) {
         Ok(x) => x,
@@ -1263,11 +1275,13 @@ fn main() {
         let n_small = n_graphs * 3 / 10;
         let mut small = small_scope(1, 0);
         rng.shuffle(&mut small);
-        for g in small.into_iter().take(n_small) {
+        for (k, mut g) in small.into_iter().take(n_small).enumerate() {
+            g.fmt = k % 3 == 1; // every third model overrides the presentation hooks (format_action / format_step)
             jobs.push((Job::G(g), rng.fork()));
         }
-        for _ in 0..(n_graphs - n_small) {
-            let g = GraphModel::random(&mut rng, &cfg);
+        for k in 0..(n_graphs - n_small) {
+            let mut g = GraphModel::random(&mut rng, &cfg);
+            g.fmt = k % 3 == 1;
             jobs.push((Job::G(g), rng.fork()));
         }
         for s in actor_specs {
@@ -1293,7 +1307,13 @@ fn main() {
                     Job::G(g) => match explicit_graph(&g) {
                         Some(e) => {
                             let bfs = bfs_reference(g.clone());
-                            explorer_session("g", &g.sx(), &e, &bfs, &mut r, thorough, idx % 16 == 0)
+                            if e.fmt {
+                                let mut em = explorer_session("gf", &g.sx(), &e, &bfs, &mut r, thorough, idx % 16 == 0);
+                                em.stat("explorer-sessions-with-overridden-format-hooks", 1);
+                                em
+                            } else {
+                                explorer_session("g", &g.sx(), &e, &bfs, &mut r, thorough, idx % 16 == 0)
+                            }
                         }
                         None => Emit::default(),
                     },
